@@ -62,7 +62,11 @@ pub fn tls_init(
 /// If the tower dies while writing, an empty (or partial) key or certificate would otherwise be loaded at every later start.
 fn write_file(path: &Path, contents: String) -> std::io::Result<()> {
     let tmp_path = path.with_extension("tmp");
+    #[cfg(feature = "verif")]
+    teos_common::verif::crash_point_write("tls:write", &tmp_path);
     std::fs::write(&tmp_path, contents)?;
+    #[cfg(feature = "verif")]
+    teos_common::verif::crash_point("tls:rename");
     std::fs::rename(tmp_path, path)
 }
 
@@ -80,8 +84,6 @@ fn generate_or_load_identity(
     if !key_path.exists() || !cert_path.exists() {
         log::debug!("Generating a new keypair in {key_path:?}, it didn't exist",);
         let keypair = KeyPair::generate()?;
-        #[cfg(feature = "verif")]
-        teos_common::verif::crash_point_write("tls:write-key", &key_path);
         write_file(&key_path, keypair.serialize_pem())?;
         log::debug!("Generating a new certificate for key {key_path:?} at {cert_path:?}",);
 
@@ -97,8 +99,6 @@ fn generate_or_load_identity(
             .distinguished_name
             .push(rcgen::DnType::CommonName, name);
 
-        #[cfg(feature = "verif")]
-        teos_common::verif::crash_point_write("tls:write-certificate", &cert_path);
         write_file(
             &cert_path,
             match parent {
